@@ -317,10 +317,14 @@ var valueTokens = []string{";", ":", "{", "}", "(", ")", "\"", "'", "\\", "/", "
 	"url(", "url(\"", "url(a)", "url()", "expression(", "http://h/p", "javascript:x", "</style>", "-->", "\u0085", "\u00a0",
 	// characters whose lower-case form has another byte length (KELVIN SIGN 3->1, OHM SIGN, ANGSTROM SIGN and capital sharp s 3->2, dotted capital I and stroked A 2->3):
 	// offsets computed in a case-folded copy do not fit the original
-	"\u212a", "\u2126", "\u212b", "\u1e9e", "\u0130", "\u023a"}
+	"\u212a", "\u2126", "\u212b", "\u1e9e", "\u0130", "\u023a",
+	// a URL with a fragment, and what closes it
+	"url(\"/a#", "\")", "url('/a#", "')", "#", "\r", "\f"}
 
 var propNames = []string{"background-image", "font-family", "display", "color", "width", "z-index", "margin", "-webkit-x", "COLOR", "Background-Image",
-	"co lor", "a:b", "x;y", "color}", "", "color/**/", "font-family "}
+	"co lor", "a:b", "x;y", "color}", "", "color/**/", "font-family ",
+	// custom properties
+	"--x", "--x;y", "--x}", "--x:y", "--x{", "--x/**/", "--x y", "--_a</style>", "--1\n"}
 
 // knownClass: a failing case that falls into a class listed in known_findings.json.
 func knownClass(c Case, err error) string {
